@@ -24,7 +24,10 @@
                     message then (d Qt's default handler, 1-9 foreign, p q r s logger 0..3, - nobody)
                     history alphabet: I R 1-9 D as before (I = install by the singleton, logger 0);
                     a b c = create logger 1 2 3; i j k = install by logger 1 2 3; x y z = destroy logger 1 2 3
-     instoracle: "<history> <trace>" -> 1/0                                             (prop_install_b) *)
+     instoracle: "<history> <trace>" -> 1/0                                             (prop_install_b)
+     pretty   : several PrettyFormatter objects: O<n> {colorize maxcat}*n D<n> {object type cat text tid time day}*n
+                    -> "<object>:<record hex>,..."   (multi: each delivery formatted by that object)
+     prettyoracle: the same case + " | <object>:<record hex>,...|-" -> 1/0             (prop_multi_b) *)
 open Config_model
 let rec pos_of_int n = if n = 1 then XH else if n land 1 = 1 then XI (pos_of_int (n lsr 1)) else XO (pos_of_int (n lsr 1))
 let n_of_int n = if n = 0 then N0 else Npos (pos_of_int n)
@@ -52,6 +55,23 @@ let parse_msgs toks =
     let day = take toks in
     { m_type = ty t.[0]; m_cat = unhex cat; m_text = unhex text; m_tid = n_of_int (int_of_string tid); m_time = unhex tm;
       m_day = n_of_int (int_of_string day) })
+let parse_multi toks =
+  let no = int_of_string (expect toks 'O') in
+  let cfgs = List.init no (fun _ -> let c = take toks in let w = take toks in (c = "1", nat_of_int (int_of_string w))) in
+  let n = int_of_string (expect toks 'D') in
+  let ops = List.init n (fun _ ->
+    let o = take toks in
+    let t = take toks in let cat = take toks in let text = take toks in let tid = take toks in let tm = take toks in
+    let day = take toks in
+    (nat_of_int (int_of_string o),
+     { m_type = ty t.[0]; m_cat = unhex cat; m_text = unhex text; m_tid = n_of_int (int_of_string tid); m_time = unhex tm;
+       m_day = n_of_int (int_of_string day) })) in
+  (cfgs, ops)
+let show_outs outs = if outs = [] then "-" else String.concat "," (List.map (fun (k, r) -> Printf.sprintf "%d:%s" (int_of_nat k) (hex r)) outs)
+let parse_outs s =
+  if s = "-" || s = "" then [] else List.map (fun f -> match String.split_on_char ':' f with
+    | [k; r] -> (nat_of_int (int_of_string k), unhex r)
+    | _ -> raise (Bad "record")) (String.split_on_char ',' s)
 let parse_env toks = let e = expect toks 'E' in { tty_out = e.[0] = '1'; tty_err = e.[1] = '1' }
 let parse_ini toks =
   let e = parse_env toks in
@@ -166,6 +186,11 @@ let () =
         (match words line with [c; f] -> b01 (prop_oneline_b (unhex c) (unhex f)) | _ -> "?")
       | "strip" -> hex (src_strip (unhex (String.trim line)))
       | "stripspec" -> hex (strip_sgr (unhex (String.trim line)))
+      | "pretty" -> let (cfgs, ops) = parse_multi (ref (words line)) in show_outs (multi cfgs ops)
+      | "prettyoracle" ->
+        let (c, o) = split_bar line in
+        let (cfgs, ops) = parse_multi (ref (words c)) in
+        b01 (prop_multi_b cfgs ops (parse_outs o))
       | "install" -> let tr = install_trace (List.map opof (chars line)) in String.concat "" (List.map (fun (h, r) -> Printf.sprintf "%c%c" (hch h) (rch r)) tr)
       | "instoracle" ->
         (match words line with
